@@ -77,6 +77,15 @@ func newGoGit(name string, bare bool) (repository.TestedRepo, string) {
 	return wrapKeyring(r), dir
 }
 
+// openGoGit opens an existing repository directory (no clock loaders, no cache: no lock taken).
+func openGoGit(dir string) (repository.TestedRepo, error) {
+	r, err := repository.OpenGoGitRepo(dir, gbNamespace, nil)
+	if err != nil {
+		return nil, err
+	}
+	return wrapKeyring(r), nil
+}
+
 func newMock() repository.TestedRepo {
 	m := repository.NewMockRepo()
 	return &lockedMock{TestedRepo: m, ls: lockedStorage{inner: m.LocalStorage(), mu: &sync.Mutex{}}}
